@@ -3,6 +3,7 @@ package main
 // SEQ / who-may-call rules for cmd/gxz (C10, C15).
 
 import (
+	"os"
 	"fmt"
 	"go/constant"
 	"go/token"
@@ -331,6 +332,7 @@ func ruleGxzDataSafety(c *Ctx, r *Report, prefix string) {
 					r.Fail(rule, key+":success-word", c.Pos(wClose.Pos()), fmt.Sprintf("writer.Close fails after [%s], not a prefix of bw.Flush f.Close Rename", strings.Join(l, " ")), sp.Trace...)
 					bad = true
 				}
+				resolveWith = nil
 				if bad {
 					break
 				}
@@ -501,6 +503,7 @@ func ruleGxzDataSafety(c *Ctx, r *Report, prefix string) {
 				}
 				n++
 				res := sp.Rets[0]
+				resolveWith = sp.P
 				switch {
 				case res == pathP:
 					r.Fail(rule, key+":target-is-input", c.InstrPos(sp.Exit), "targetName can return its path argument unchanged with a nil error: the output would be renamed over the input and the input path removed afterwards", sp.Trace...)
@@ -510,8 +513,13 @@ func ruleGxzDataSafety(c *Ctx, r *Report, prefix string) {
 				default:
 					if bo, ok := res.(*ssa.BinOp); ok && bo.Op == token.ADD && isSuffixRemoval(bo.X, pathP) {
 						if s, isS := constString(bo.Y); isS && s != "" {
+							resolveWith = nil
 							continue
 						}
+					}
+					resolveWith = nil
+					if os.Getenv("XZV_TRACE") != "" {
+						fmt.Printf("SHAPE FAIL rets=%v errval=%v (%T) errnil=%v exit=%v\n", sp.Rets, sp.ErrVal, sp.ErrVal, sp.ErrNil, sp.Exit)
 					}
 					r.Fail(rule, key+":shape", c.InstrPos(sp.Exit), "targetName's result is neither path+suffix nor path with exactly its known suffix removed (path[:len(path)-len(ext)] or strings.TrimSuffix)", sp.Trace...)
 					bad = true
@@ -553,8 +561,8 @@ func constString(v ssa.Value) (string, bool) {
 
 // isPathPlusNonEmpty: v == path + X where every possible X is a non-empty string.
 func isPathPlusNonEmpty(v ssa.Value, path ssa.Value) bool {
-	bo, ok := v.(*ssa.BinOp)
-	if !ok || bo.Op != token.ADD || bo.X != path {
+	bo, ok := rv(v).(*ssa.BinOp)
+	if !ok || bo.Op != token.ADD || rv(bo.X) != rv(path) {
 		return false
 	}
 	return nonEmptyString(bo.Y, 0)
@@ -584,27 +592,45 @@ func nonEmptyString(v ssa.Value, depth int) bool {
 }
 
 // isSuffixRemoval: v == path[:len(path)-len(X)] or strings.TrimSuffix(path, X).
+// resolveWith, when set, resolves values along the path under inspection (φ-nodes, and
+// parameters / results of new helper functions the walker stepped through).
+var resolveWith *PState
+
+func rv(v ssa.Value) ssa.Value {
+	if resolveWith != nil && v != nil {
+		return resolveWith.Resolve(v)
+	}
+	return v
+}
+
 func isSuffixRemoval(v ssa.Value, path ssa.Value) bool {
-	switch x := v.(type) {
+	path = rv(path)
+	if os.Getenv("XZV_TRACE") != "" {
+		fmt.Printf("isSuffixRemoval v=%v (%T) rv=%v (%T) path=%v\n", v, v, rv(v), rv(v), path)
+		if sl, ok := rv(v).(*ssa.Slice); ok {
+			fmt.Printf("   slice X=%v rvX=%v high=%v rvHigh=%v (%T)\n", sl.X, rv(sl.X), sl.High, rv(sl.High), rv(sl.High))
+		}
+	}
+	switch x := rv(v).(type) {
 	case *ssa.Slice:
-		if x.X != path || x.Low != nil || x.High == nil {
+		if rv(x.X) != path || x.Low != nil || x.High == nil {
 			return false
 		}
-		bo, ok := x.High.(*ssa.BinOp)
+		bo, ok := rv(x.High).(*ssa.BinOp)
 		if !ok || bo.Op != token.SUB {
 			return false
 		}
 		isLenOf := func(v ssa.Value, of func(ssa.Value) bool) bool {
-			call, ok := v.(*ssa.Call)
+			call, ok := rv(v).(*ssa.Call)
 			if !ok {
 				return false
 			}
 			b, ok := call.Call.Value.(*ssa.Builtin)
-			return ok && b.Name() == "len" && of(call.Call.Args[0])
+			return ok && b.Name() == "len" && of(rv(call.Call.Args[0]))
 		}
 		return isLenOf(bo.X, func(a ssa.Value) bool { return a == path }) && isLenOf(bo.Y, func(a ssa.Value) bool { return a != path })
 	case *ssa.Call:
-		return stdCalleeName(x) == "strings.TrimSuffix" && x.Call.Args[0] == path
+		return stdCalleeName(x) == "strings.TrimSuffix" && rv(x.Call.Args[0]) == path
 	}
 	return false
 }
